@@ -203,4 +203,4 @@ def run(ck, ctx):
     ck.ob("C34.3", "time-writers", w <= {"<sim::device::timer::TimerDevice as sim::device::ExternalDevice>::poll_interrupt", "<sim::device::timer::TimerDevice as sim::device::ExternalDevice>::io_reset", T + "::reset_remaining"},
           "writers of TimerDevice.time: %s" % sorted(w), "src/sim/device/timer.rs")
     ck.assume("the arithmetic conclusion (exactly t polls between interrupts, first interrupt within max+1 polls) is argued from the arms, not computed")
-    ck.assume("seed provenance and determinism are C31.3")
+    ck.include("C31", ctx, "C34.4", {"C31.3"}, "a seeded timer is reproducible: the seed given by the host reaches StdRng::seed_from_u64 for every seed value")
